@@ -9,10 +9,9 @@ let split_prefix (op : string) : string * n list =
   | Some k -> (String.sub op 0 k, unhex (String.sub op (k + 1) (String.length op - k - 1)))
   | None -> (op, [])
 
-(* build_array / build_object write into the caller's buffer as they go: on an error return the buffer is what the
-   state version of the model says is left in it *)
-let show_buf_st ((b, r) : n list * unit res) : string =
-  match r with Ok _ -> "ok " ^ hex b | Err e -> "err " ^ show_err e ^ " " ^ hex b | Panic -> "panic"
+(* every buffer-writing editor is run as its state function (BufSt.v): the buffer printed is the one THE MODEL computed,
+   on Ok and on Err (the Rust side prints the buffer the function left: harness `bufres`).  build_array / build_object
+   write as they go and leave bytes behind on an error return; the others write once, at the end *)
 
 
 (* chain <registers as a hex list> op args | op args | ... : ChainWalk.run_b over byte registers, a register argument is
@@ -122,19 +121,19 @@ let run (op_full : string) (a : string array) : string =
   | "exists_any_keys" -> show_res show_bool (exists_any_keys_w (unhex a.(0)) (hexlist a.(1)))
   | "traverse_check_string" -> show_res show_bool (traverse_check_string_w (unhex a.(0)) (unhex a.(1)))
   | "contains" -> show_res show_bool (contains_w (unhex a.(0)) (unhex a.(1)))
-  | "array_distinct" -> show_buf prefix (array_distinct_w (unhex a.(0)) prefix)
-  | "array_intersection" -> show_buf prefix (array_intersection_w (unhex a.(0)) (unhex a.(1)) prefix)
-  | "array_except" -> show_buf prefix (array_except_w (unhex a.(0)) (unhex a.(1)) prefix)
+  | "array_distinct" -> show_buf_st (array_distinct_st (unhex a.(0)) prefix)
+  | "array_intersection" -> show_buf_st (array_intersection_st (unhex a.(0)) (unhex a.(1)) prefix)
+  | "array_except" -> show_buf_st (array_except_st (unhex a.(0)) (unhex a.(1)) prefix)
   | "array_overlap" -> show_res show_bool (array_overlap_w (unhex a.(0)) (unhex a.(1)))
-  | "concat" -> show_buf prefix (concat_w (unhex a.(0)) (unhex a.(1)) prefix)
-  | "delete_by_name" -> show_buf prefix (delete_by_name_w (unhex a.(0)) (unhex a.(1)) prefix)
-  | "delete_by_index" -> show_buf prefix (delete_by_index_w (unhex a.(0)) (z_of_zt (ZA.of_string a.(1))) prefix)
-  | "delete_by_keypath" -> show_buf prefix (delete_by_keypath_w (unhex a.(0)) (parse_keypaths a.(1)) prefix)
-  | "array_insert" -> show_buf prefix (array_insert_w (unhex a.(0)) (z_of_zt (ZA.of_string a.(1))) (unhex a.(2)) prefix)
-  | "object_insert" -> show_buf prefix (object_insert_w (unhex a.(0)) (unhex a.(1)) (unhex a.(2)) (a.(3) = "1") prefix)
-  | "object_delete" -> show_buf prefix (object_delete_w (unhex a.(0)) (hexlist a.(1)) prefix)
-  | "object_pick" -> show_buf prefix (object_pick_w (unhex a.(0)) (hexlist a.(1)) prefix)
-  | "strip_nulls" -> show_buf prefix (strip_nulls_w (unhex a.(0)) prefix)
+  | "concat" -> show_buf_st (concat_st (unhex a.(0)) (unhex a.(1)) prefix)
+  | "delete_by_name" -> show_buf_st (delete_by_name_st (unhex a.(0)) (unhex a.(1)) prefix)
+  | "delete_by_index" -> show_buf_st (delete_by_index_st (unhex a.(0)) (z_of_zt (ZA.of_string a.(1))) prefix)
+  | "delete_by_keypath" -> show_buf_st (delete_by_keypath_st (unhex a.(0)) (parse_keypaths a.(1)) prefix)
+  | "array_insert" -> show_buf_st (array_insert_st (unhex a.(0)) (z_of_zt (ZA.of_string a.(1))) (unhex a.(2)) prefix)
+  | "object_insert" -> show_buf_st (object_insert_st (unhex a.(0)) (unhex a.(1)) (unhex a.(2)) (a.(3) = "1") prefix)
+  | "object_delete" -> show_buf_st (object_delete_st (unhex a.(0)) (hexlist a.(1)) prefix)
+  | "object_pick" -> show_buf_st (object_pick_st (unhex a.(0)) (hexlist a.(1)) prefix)
+  | "strip_nulls" -> show_buf_st (strip_nulls_st (unhex a.(0)) prefix)
   | "build_array" -> show_buf_st (build_array_st (hexlist a.(0)) prefix)
   | "build_object" -> show_buf_st (build_object_st (hexlist a.(0)) (hexlist a.(1)) prefix)
   | "select" -> show_sel prefix (select_w (unhex a.(0)) (parse_jsonpath a.(1)) (mode_of a.(2)) prefix)
